@@ -318,15 +318,15 @@ def thread_jumps(raw, rounds=8):
     changed = 0
     for _ in range(rounds):
         progress = False
-        for b in blocks:
+        for b in list(blocks):
             t = b["term"]
-            if t["k"] != "goto" or b.get("cleanup"):
+            if t["k"] not in ("goto", "drop") or b.get("cleanup") or t.get("target") is None:
                 continue
             chain = []
             cur = t["target"]
             stmts = list(b["stmts"])
             hit = None
-            for _hop in range(4):
+            for _hop in range(8):
                 m = blocks[cur]
                 if m.get("cleanup") or not _pure_simple(m["stmts"]) or cur in chain:
                     break
@@ -351,7 +351,7 @@ def thread_jumps(raw, rounds=8):
                 # not constant: if the switched value is computed in this very block (an inlined predicate's
                 # `return a != b`), move the switch here so that it is described by that computation
                 m = blocks[cur] if chain and chain[-1] == cur else None
-                if m is not None and m["term"]["k"] == "switch" and _defined_in(b["stmts"], stmts, m["term"]["discr"]):
+                if t["k"] == "goto" and m is not None and m["term"]["k"] == "switch" and _defined_in(b["stmts"], stmts, m["term"]["discr"]):
                     extra = []
                     for c in chain:
                         extra += copy.deepcopy(blocks[c]["stmts"])
@@ -367,8 +367,14 @@ def thread_jumps(raw, rounds=8):
                 extra += copy.deepcopy(blocks[c]["stmts"])
             if hit == t["target"] and not extra:
                 continue
-            b["stmts"] = b["stmts"] + extra
-            b["term"] = dict(t, target=hit, threaded=True)
+            if t["k"] == "drop":
+                # the value is dropped first; the copied (side-effect free) assignments run in a block of their own after it
+                blocks.append({"cleanup": False, "stmts": extra, "term": {"k": "goto", "target": hit, "span": t["span"], "threaded": True},
+                               "synthetic": True})
+                b["term"] = dict(t, target=len(blocks) - 1, threaded=True)
+            else:
+                b["stmts"] = b["stmts"] + extra
+                b["term"] = dict(t, target=hit, threaded=True)
             progress = True
             changed += 1
         if not progress:
